@@ -220,6 +220,15 @@ impl Worker {
     }
 }
 
+/// the hook runs for the original panic and again for "panic in a function that cannot unwind": keep both
+fn add_panic(acc: &mut Option<String>, m: String) {
+    let m = m.replace('\n', " ");
+    *acc = Some(match acc.take() {
+        Some(a) => format!("{a} | {m}"),
+        None => m,
+    });
+}
+
 /// run ONE history in a fresh `--careful` child; finds the exact call at which the child dies
 fn careful_run(cfg: &Cfg, h: &History, first_why: &str, st: &mut PoolStats) -> Vec<RealResp> {
     st.careful_runs += 1;
@@ -233,7 +242,7 @@ fn careful_run(cfg: &Cfg, h: &History, first_why: &str, st: &mut PoolStats) -> V
     loop {
         match w.next_line() {
             Line::R(r) => resps.push(r),
-            Line::P(m) => pmsg = Some(m),
+            Line::P(m) => add_panic(&mut pmsg, m),
             Line::E => {
                 finished = true;
                 break;
@@ -269,7 +278,7 @@ fn careful_run(cfg: &Cfg, h: &History, first_why: &str, st: &mut PoolStats) -> V
         why.push_str(" (after the last call: at thread exit, while the thread-locals were dropped)");
     }
     if !first_why.is_empty() {
-        why.push_str(&format!(" [first run: {first_why}]"));
+        why.push_str(&format!(" [first run in the shared worker: {first_why}]"));
     }
     resps.push(RealResp::Trap { why });
     while resps.len() < h.len() {
@@ -301,7 +310,7 @@ fn run_slice(slot: &mut Option<Worker>, cfg: &Cfg, hs: &[History], st: &mut Pool
                 match w.next_line() {
                     Line::R(r) => resps.push(r),
                     Line::E => break,
-                    Line::P(m) => pmsg = Some(m),
+                    Line::P(m) => add_panic(&mut pmsg, m),
                     Line::S(_) => {}
                     Line::Eof => {
                         died = Some((j, pmsg, false));
@@ -324,7 +333,8 @@ fn run_slice(slot: &mut Option<Worker>, cfg: &Cfg, hs: &[History], st: &mut Pool
                     st.timeouts += 1;
                 }
                 let status = slot.take().unwrap().reap(timeout);
-                let first = format!("{}{status}", pmsg.map(|m| format!("panic: {m}; ")).unwrap_or_default());
+                let _ = pmsg;
+                let first = status;
                 out.push(careful_run(cfg, &hs[j], &first, st));
                 st.histories += 1;
                 i = j + 1;
